@@ -220,6 +220,16 @@ func (rt *Runtime) helperData() map[string]interface{} {
 			}
 			return sb.String(), nil
 		},
+		// tag-style helper: writes into the options map it was given (or that
+		// plush supplied when the call left it out), like buffalo's tag helpers
+		"tagopts": func(s string, opts map[string]interface{}) string {
+			if opts["class"] == nil {
+				opts["class"] = "c-" + s
+			}
+			delete(opts, "data")
+			opts["n"] = len(opts)
+			return fmt.Sprintf("<%v %v>", opts["class"], opts["n"])
+		},
 		"sum": func(first int, rest ...int) int {
 			for _, r := range rest {
 				first += r
